@@ -46,6 +46,9 @@ type result struct {
 type call struct {
 	name string
 	run  func(c *j5codec.Codec) result
+	// run2, when set, is used instead of run: it also returns a function that re-reads what the call
+	// handed back (a decoded message the caller keeps) after every other call has finished
+	run2 func(c *j5codec.Codec) (result, func() string)
 }
 
 type scenario struct {
@@ -91,8 +94,9 @@ func buildWorld() *world {
 		gpb.F("big", 7, gpb.KInt64, gpb.Single), gpb.F("id", 8, gpb.KKeyUUID, gpb.Single), gpb.F("flag", 9, gpb.KBool, gpb.Optional), gpb.F("text", 10, gpb.KString, gpb.Single),
 		gpb.F("by_name", 11, gpb.KBytes, gpb.Map),
 	}}
+	f1 := &gpb.Message{Name: "F1", Fields: []*gpb.Field{fld("inner", 1, gpb.KFlatten, gpb.Single, sub), fld("name", 2, gpb.KString, gpb.Single, nil)}}
 	a1 := &gpb.Message{Name: "A1", Fields: []*gpb.Field{gpb.F("pb_any", 1, gpb.KPbAny, gpb.Single), gpb.F("j_any", 2, gpb.KJ5Any, gpb.Single), gpb.F("note", 3, gpb.KString, gpb.Single)}}
-	w.a = &gpb.Schema{Package: "ca.v1", Enums: []*gpb.Enum{gpb.DefaultEnum, bare}, Messages: []*gpb.Message{t1, t2, r1, r2, tbad, v1, a1}}
+	w.a = &gpb.Schema{Package: "ca.v1", Enums: []*gpb.Enum{gpb.DefaultEnum, bare}, Messages: []*gpb.Message{t1, t2, r1, r2, tbad, v1, a1, f1}}
 	u1 := &gpb.Message{Name: "U1", Fields: []*gpb.Field{gpb.F("name", 1, gpb.KString, gpb.Single), gpb.F("n_val", 2, gpb.KInt64, gpb.Single)}}
 	w.b = &gpb.Schema{Package: "cb.v1", Messages: []*gpb.Message{u1}}
 	if err := w.a.Build(); err != nil {
@@ -101,7 +105,7 @@ func buildWorld() *world {
 	if err := w.b.Build(); err != nil {
 		panic(err)
 	}
-	for _, m := range []*gpb.Message{t1, t2, r1, r2, tbad, v1, a1, sub, wrap} {
+	for _, m := range []*gpb.Message{t1, t2, r1, r2, tbad, v1, a1, f1, sub, wrap} {
 		w.msgs[m.Name] = m
 	}
 	w.msgs["U1"] = u1
@@ -144,7 +148,7 @@ func (w *world) enc(msgName, doc string) call {
 			panic(fmt.Sprintf("harness: cannot build %s from %s: %v", msgName, doc, err))
 		}
 	}
-	return call{"encode " + msgName, func(c *j5codec.Codec) result {
+	return call{name: "encode " + msgName, run: func(c *j5codec.Codec) result {
 		out, err := c.ProtoToJSON(proto.Clone(src).ProtoReflect())
 		if err != nil {
 			return result{Err: vk.ErrTail(err)}
@@ -175,7 +179,7 @@ func (w *world) encAny(text string, pb, j5 bool) call {
 		am.Set(am.Descriptor().Fields().ByName("proto"), protoreflect.ValueOfBytes(payload))
 	}
 	src.Set(md.Fields().ByName("note"), protoreflect.ValueOfString(text))
-	return call{"encode A1 " + text, func(c *j5codec.Codec) result {
+	return call{name: "encode A1 " + text, run: func(c *j5codec.Codec) result {
 		out, err := c.ProtoToJSON(proto.Clone(src).ProtoReflect())
 		if err != nil {
 			return result{Err: vk.ErrTail(err)}
@@ -187,20 +191,23 @@ func (w *world) encAny(text string, pb, j5 bool) call {
 func (w *world) dec(msgName, doc string) call {
 	s := w.schemaOf(msgName)
 	md := s.Desc(w.msgs[msgName])
-	return call{"decode " + msgName, func(c *j5codec.Codec) result {
+	return call{name: "decode " + msgName, run2: func(c *j5codec.Codec) (result, func() string) {
 		msg := dynamicpb.NewMessage(md)
 		if err := c.JSONToProto([]byte(doc), msg); err != nil {
-			return result{Err: vk.ErrTail(err)}
+			return result{Err: vk.ErrTail(err)}, nil
 		}
 		b, _ := proto.MarshalOptions{Deterministic: true}.Marshal(msg)
-		return result{Out: hex.EncodeToString(b)}
+		return result{Out: hex.EncodeToString(b)}, func() string {
+			b2, _ := proto.MarshalOptions{Deterministic: true}.Marshal(msg)
+			return hex.EncodeToString(b2)
+		}
 	}}
 }
 
 func (w *world) qry(msgName string, q url.Values) call {
 	s := w.schemaOf(msgName)
 	md := s.Desc(w.msgs[msgName])
-	return call{"query " + msgName, func(c *j5codec.Codec) result {
+	return call{name: "query " + msgName, run: func(c *j5codec.Codec) result {
 		msg := dynamicpb.NewMessage(md)
 		if err := c.QueryToProto(q, msg); err != nil {
 			return result{Err: vk.ErrTail(err)}
@@ -211,7 +218,7 @@ func (w *world) qry(msgName string, q url.Values) call {
 }
 
 func hashCall(ns string, in ...string) call {
-	return call{"NewHash " + ns, func(*j5codec.Codec) result {
+	return call{name: "NewHash " + ns, run: func(*j5codec.Codec) result {
 		h := id62.NewHash(ns, in...)
 		return result{Out: h.String()}
 	}}
@@ -223,6 +230,10 @@ const r1doc = `{"rTwo":{"rOne":{"name":"deep"},"list":[{"name":"l"}],"color":"RE
 const r2doc = `{"rOne":{"name":"x","rTwo":{"color":"DARK_BLUE"}},"list":[{"name":"l"}]}`
 const v1docA = `{"data":"AAECAwQFBgcICQoLDA0ODw==","chunks":["/////w==","AA=="],"when":"2024-01-02T03:04:05.000000006Z","day":"2024-02-29","amount":"1234.50","ratio":1.5,"big":"9007199254740993","id":"123e4567-e89b-12d3-a456-426614174000","flag":false,"text":"é\"q","byName":{"a":"AQID"}}`
 const v1docB = `{"data":"/v79/Pv6+fj39vX08/Lx8A==","chunks":["EBESEw==","FBUWFxgZ"],"when":"1999-12-31T23:59:59Z","day":"0001-01-01","amount":"-0.000001","ratio":-1e21,"big":"-9223372036854775808","id":"00000000-0000-0000-0000-000000000000","flag":true,"text":"plain","byName":{"b":"BAUG","c":"Bw=="}}`
+const f1doc = `{"sVal":"flat","nVal":"7","name":"n"}`
+const a1docA = `{"jAny":{"!type":"ca.v1.Sub","value":{"sVal":"first-json-payload-aaaaaaaaaaaaaaaaaaaa"}},"note":"a"}`
+const a1docB = `{"jAny":{"!type":"ca.v1.Sub","value":{"sVal":"second"}},"note":"b"}`
+const a1docC = `{"jAny":{"!type":"ca.v1.Sub","value":{"sVal":"third-json-payload-cccccccccccccccccccccccccccccc","nVal":"5"}},"note":"c"}`
 const badDoc = `{"sub":{"sVal":"x"},"w":{"!type":"armB","armB":{"yVal":3}}}`
 
 func scenarios(w *world) []*scenario {
@@ -246,6 +257,8 @@ func scenarios(w *world) []*scenario {
 		{name: "R-scalar-scratch-mixed", warm: []call{w.enc("V1", v1docA)}, threads: [][]call{{w.enc("V1", v1docA), w.dec("V1", v1docB)}, {w.dec("V1", v1docA), w.enc("V1", v1docB)}}, quickBound: 2, thoroughBound: 4},
 		{name: "S-any-proto-payloads", opts: []j5codec.CodecOption{j5codec.WithResolver(gpb.Resolver{S: w.a}), j5codec.WithProtoToAny()}, threads: [][]call{{w.encAny("first-payload-aaaaaaaaaaaaaaaa", true, true), w.encAny("third", true, false)}, {w.encAny("second-payload-bbbbbbbbbbbbbbbbbbbbbbbb", true, true)}}, quickBound: 2, thoroughBound: 99},
 		{name: "T-any-j5-only", opts: []j5codec.CodecOption{j5codec.WithResolver(gpb.Resolver{S: w.a})}, threads: [][]call{{w.encAny("first-payload-aaaaaaaaaaaaaaaa", false, true)}, {w.encAny("second-payload-bbbbbbbbbbbbbbbbbbbbbbbb", false, true)}}, quickBound: 3, thoroughBound: 99},
+		{name: "U-flattened-first-use", threads: [][]call{{w.enc("F1", f1doc)}, {w.dec("F1", f1doc)}, {w.qry("F1", url.Values{"sVal": {"q"}, "name": {"n"}})}}, quickBound: 2, thoroughBound: 99},
+		{name: "V-any-json-decodes-retained", opts: []j5codec.CodecOption{j5codec.WithResolver(gpb.Resolver{S: w.a})}, threads: [][]call{{w.dec("A1", a1docA), w.dec("A1", a1docB)}, {w.dec("A1", a1docC)}}, quickBound: 2, thoroughBound: 99},
 		{name: "I-hash-ids", threads: [][]call{{hashCall("ns", "a", "b"), hashCall("ns", "a", "b")}, {hashCall("ns", "a", "b"), hashCall("other", "c")}}, quickBound: 3, thoroughBound: 99},
 	}
 }
@@ -268,12 +281,21 @@ func (s *scenario) newCodec() *j5codec.Codec {
 }
 
 func safeCall(c call, codec *j5codec.Codec) (r result) {
+	r, _ = safeCall2(c, codec)
+	return r
+}
+
+func safeCall2(c call, codec *j5codec.Codec) (r result, re func() string) {
 	defer func() {
 		if e := recover(); e != nil {
 			r = result{Err: "PANIC: " + vk.PanicSig(e, string(debugStack()))}
+			re = nil
 		}
 	}()
-	return c.run(codec)
+	if c.run2 != nil {
+		return c.run2(codec)
+	}
+	return c.run(codec), nil
 }
 
 func execute(s *scenario, prefix []int8) *execResult {
@@ -283,6 +305,7 @@ func execute(s *scenario, prefix []int8) *execResult {
 		safeCall(c, codec)
 	}
 	res := make([][]result, len(s.threads))
+	rechecks := make([][]func() string, len(s.threads))
 	var wg sync.WaitGroup
 	for ti, calls := range s.threads {
 		ti, calls := ti, calls
@@ -293,8 +316,9 @@ func execute(s *scenario, prefix []int8) *execResult {
 			vsched.ThreadMain(id, func() {
 				for _, c := range calls {
 					vsched.Yield(vsched.OpCall, 0)
-					r := safeCall(c, codec)
+					r, re := safeCall2(c, codec)
 					res[ti] = append(res[ti], r)
+					rechecks[ti] = append(rechecks[ti], re)
 					vsched.Yield(vsched.OpCallEnd, 0)
 				}
 			})
@@ -306,6 +330,16 @@ func execute(s *scenario, prefix []int8) *execResult {
 	x := &execResult{points: vsched.Points(), dead: dead, diverged: div, overflow: over}
 	if !dead {
 		wg.Wait() // the only real synchronisation: after every thread has finished
+		// history oracle: what a call handed back must still read the same after all later calls
+		for ti := range rechecks {
+			for ci, re := range rechecks[ti] {
+				if re != nil && res[ti][ci].Err == "" {
+					if now := re(); now != res[ti][ci].Out {
+						res[ti][ci].Out = "RETAINED-MESSAGE-CHANGED after later calls: was " + res[ti][ci].Out + " now " + now
+					}
+				}
+			}
+		}
 		x.results = res
 	}
 	return x
